@@ -32,7 +32,6 @@ var mapOrderFrozen = map[string]string{
 	"github.com/dave/dst/decorator.(*fileDecorator).addNodeFragments n.Files": "fragments of different files have disjoint position ranges and the list is stable-sorted by position afterwards",
 	"github.com/dave/dst/decorator.(*fileDecorator).fragment val.Files":       "per-file comment/newline fragments; the list is stable-sorted by position afterwards (cross-file line filtering is checked by R-FILESCOPE)",
 	"github.com/dave/dst/decorator.(*FileRestorer).restoreNode n.Files":       "restoring a dst.Package is unreachable from the public API (RestoreFile takes *dst.File; object Decl/Data nodes are never packages)",
-	"github.com/dave/dst/decorator.Load pkg.Imports":                          "convert is memoised by package (dpkgs) and the result is stored under the range key",
 }
 
 type mapRange struct {
@@ -132,7 +131,7 @@ func (m *moCtx) pureExpr(x ast.Expr) bool {
 				return true
 			}
 		}
-		if m.pureLocalClosure(call) {
+		if m.pureLocalClosure(call) || m.memoisedCallee(call) {
 			return true
 		}
 		if !allowedCallee(calleeFunc(m.info, call)) {
@@ -785,4 +784,77 @@ func (m *moCtx) searchOnlyField(fv *types.Var) bool {
 		})
 	}
 	return good && uses > 0
+}
+
+// memoisedCallee: the call goes to a closure or same-package function that is memoised on its
+// (single) argument: its body returns the entry of a map keyed by the parameter when there is one
+// (`if x, ok := memo[p]; ok { return x … }`) and stores `memo[p] = …` otherwise. Whatever order
+// such calls are made in, each argument is converted once and every call returns that result.
+func (m *moCtx) memoisedCallee(call *ast.CallExpr) bool {
+	if len(call.Args) != 1 {
+		return false
+	}
+	var body *ast.BlockStmt
+	var params *ast.FieldList
+	switch f := call.Fun.(type) {
+	case *ast.Ident:
+		if v, ok := m.info.Uses[f].(*types.Var); ok && m.fd != nil && m.fd.Body != nil {
+			// local closure: var convert func(...); convert = func(...) {...}  or  convert := func
+			ast.Inspect(m.fd.Body, func(n ast.Node) bool {
+				if as, ok := n.(*ast.AssignStmt); ok && len(as.Lhs) == len(as.Rhs) {
+					for i, l := range as.Lhs {
+						if lid, ok := l.(*ast.Ident); ok && (m.info.Defs[lid] == types.Object(v) || m.info.Uses[lid] == types.Object(v)) {
+							if lit, ok := as.Rhs[i].(*ast.FuncLit); ok {
+								body, params = lit.Body, lit.Type.Params
+							}
+						}
+					}
+				}
+				return true
+			})
+		}
+	}
+	if body == nil {
+		fn := calleeFunc(m.info, call)
+		if fn == nil {
+			return false
+		}
+		for _, pkg := range m.e.Prog.InScopePkgs() {
+			if pkg.Types != fn.Pkg() {
+				continue
+			}
+			for _, d := range load.AllFuncDecls(pkg) {
+				if pkg.TypesInfo.Defs[d.Name] == types.Object(fn) && d.Body != nil {
+					body, params = d.Body, d.Type.Params
+				}
+			}
+		}
+	}
+	if body == nil || params == nil || len(params.List) != 1 || len(params.List[0].Names) != 1 {
+		return false
+	}
+	pname := params.List[0].Names[0].Name
+	lookup, store := false, false
+	ast.Inspect(body, func(n ast.Node) bool {
+		switch x := n.(type) {
+		case *ast.IfStmt:
+			if as, ok := x.Init.(*ast.AssignStmt); ok && len(as.Lhs) == 2 && len(as.Rhs) == 1 {
+				if ix, ok := as.Rhs[0].(*ast.IndexExpr); ok && types.ExprString(ix.Index) == pname {
+					if okID, ok := as.Lhs[1].(*ast.Ident); ok && types.ExprString(x.Cond) == okID.Name && len(x.Body.List) > 0 {
+						if _, isRet := x.Body.List[len(x.Body.List)-1].(*ast.ReturnStmt); isRet {
+							lookup = true
+						}
+					}
+				}
+			}
+		case *ast.AssignStmt:
+			for _, l := range x.Lhs {
+				if ix, ok := l.(*ast.IndexExpr); ok && types.ExprString(ix.Index) == pname {
+					store = true
+				}
+			}
+		}
+		return true
+	})
+	return lookup && store
 }
